@@ -19,7 +19,8 @@ Presentations == {"sources",        \* n sources, one document each
                   "includes",       \* one source:  --- !include f1  ---  !include f2 ...
                   "multidoc_inc",   \* one source:  --- !include [all]   where all holds n documents
                   "nested",         \* one source:  --- !include [mid],  mid:  --- !include [f1..fn]
-                  "mixed"}          \* one source:  d1  ---  !include [f2..fn]
+                  "mixed",          \* one source:  d1  ---  !include [f2..fn]
+                  "inc_then_doc"}   \* one source:  --- !include [f1..fn-1]  ---  dn
 
 \* stream.py:23-25 + composed.py:22-31: the StreamNode constructor ADOPTS the stages it is built around.
 \* Intended: a stream only groups stages and pushes nothing onto them.  F6: being a list with delete=False it
@@ -35,6 +36,7 @@ Stages(pres, ds) ==
       [] pres \in {"include_list", "includes", "multidoc_inc"} -> [i \in 1..Len(ds) |-> Times(ds[i], 1)]
       [] pres = "nested" -> [i \in 1..Len(ds) |-> Times(ds[i], 2)]
       [] pres = "mixed"  -> [i \in 1..Len(ds) |-> IF i = 1 THEN ds[i] ELSE Times(ds[i], 1)]
+      [] pres = "inc_then_doc" -> [i \in 1..Len(ds) |-> IF i = Len(ds) THEN ds[i] ELSE Times(ds[i], 1)]
 
 Build(pres, ds) == FoldDocs(Stages(pres, ds))
 
